@@ -440,6 +440,43 @@ func c7Faults(thorough bool) []c7Fault {
 		add("hex:upper-case:"+f.name, func(rng *rand.Rand, s *world.Spec) { p := f.get(&s.Qe); *p = strings.ToUpper(*p) }) // same bytes: must not matter
 		add("hex:0x-prefix:"+f.name, func(rng *rand.Rand, s *world.Spec) { p := f.get(&s.Qe); *p = "0x" + *p })
 	}
+	// --- numbers and byte strings just outside their width: a level isvsvn of 2^16 + k (k at or below the report's ISVSVN) listed
+	// first and UpToDate, in front of the level that really applies (not UpToDate) or of nothing; an identity MRSIGNER that is the
+	// report's 32 bytes plus more, or only a prefix of it where the report's tail is zero; a MISCSELECT value of 4 + n bytes
+	for _, rest := range []string{"then-the-real-level-OutOfDate", "alone"} {
+		rest := rest
+		add("width:level-isvsvn-above-16-bits-listed-first/"+rest, func(rng *rand.Rand, s *world.Spec) {
+			isv := int(s.Quote.QeReport.IsvSvn & 0xffff)
+			wrapped := world.QeLevel{Isvsvn: 65536*(1+rng.IntN(3)) + rng.IntN(isv+1), Status: "UpToDate"}
+			if rest == "alone" {
+				s.Qe.Levels = []world.QeLevel{wrapped}
+			} else {
+				s.Qe.Levels = []world.QeLevel{wrapped, {Isvsvn: isv, Status: []string{"OutOfDate", "Revoked"}[rng.IntN(2)]}}
+			}
+		})
+	}
+	add("width:mrsigner-is-the-reports-plus-extra-bytes", func(rng *rand.Rand, s *world.Spec) {
+		s.Qe.Mrsigner = hex.EncodeToString(append(append([]byte{}, s.Quote.QeReport.MrSigner...), hx.RandBytes(rng, 1+rng.IntN(16))...))
+	})
+	add("width:mrsigner-is-a-prefix(report-tail-zero)", func(rng *rand.Rand, s *world.Spec) {
+		n := 8 + rng.IntN(20)
+		for i := n; i < 32; i++ {
+			s.Quote.QeReport.MrSigner[i] = 0
+		}
+		s.Qe.Mrsigner = hex.EncodeToString(s.Quote.QeReport.MrSigner[:n])
+	})
+	add("width:mrsigner-empty(report-all-zero)", func(rng *rand.Rand, s *world.Spec) {
+		for i := range s.Quote.QeReport.MrSigner {
+			s.Quote.QeReport.MrSigner[i] = 0
+		}
+		s.Qe.Mrsigner = ""
+	})
+	add("width:miscselect-of-more-than-4-bytes", func(rng *rand.Rand, s *world.Spec) {
+		s.Qe.Miscselect += hex.EncodeToString(hx.RandBytes(rng, 1+rng.IntN(4)))
+	})
+	add("width:miscselect-mask-of-more-than-4-bytes", func(rng *rand.Rand, s *world.Spec) {
+		s.Qe.MiscselectMask += hex.EncodeToString(hx.RandBytes(rng, 1+rng.IntN(4)))
+	})
 	// --- one half of ATTRIBUTES at a time: the identity's value is zero there, the mask selects every bit of it, the report has ONE
 	// bit set there (the other half agrees) — and the mirror image (identity has the bit, the report does not)
 	for _, half := range []string{"low", "high"} {
